@@ -21,6 +21,27 @@
 #include "oomd/config/ConfigTypes.h"
 #include "oomd/engine/Engine.h"
 
+#ifdef OOMD_VERIF
+// Verification trace points (add-only, compiled out unless OOMD_VERIF is
+// defined; a no-op unless the linking program defines the symbol). They sit
+// inside the critical sections of the drop in queue.
+extern "C" void oomd_verif_dropin_trace(
+    const char* what,
+    const char* tag,
+    const void* ir,
+    unsigned long n) __attribute__((weak));
+#define OOMD_VERIF_DROPIN_TRACE(what, tag, ir, n) \
+  do {                                            \
+    if (oomd_verif_dropin_trace) {                \
+      oomd_verif_dropin_trace(what, tag, ir, n);  \
+    }                                             \
+  } while (0)
+#else
+#define OOMD_VERIF_DROPIN_TRACE(what, tag, ir, n) \
+  do {                                            \
+  } while (0)
+#endif
+
 namespace Oomd {
 
 void DropInServiceAdaptor::updateDropIns() {
@@ -31,6 +52,7 @@ void DropInServiceAdaptor::updateDropIns() {
   {
     std::lock_guard<std::mutex> lock(queue_mutex_);
     drop_in_queue = std::move(drop_in_queue_);
+    OOMD_VERIF_DROPIN_TRACE("swap", "", nullptr, drop_in_queue.size());
   }
 
   for (auto&& [tag, unit] : drop_in_queue) {
@@ -56,17 +78,20 @@ bool DropInServiceAdaptor::scheduleDropInAdd(
   const PluginConstructionContext compile_context(cgroup_fs_);
   auto unit = Config2::compileDropIn(root_, drop_in, compile_context);
   if (!unit.has_value()) {
+    OOMD_VERIF_DROPIN_TRACE("fail", tag.c_str(), &drop_in, 0);
     return false;
   }
 
   std::lock_guard<std::mutex> lock(queue_mutex_);
   drop_in_queue_.emplace_back(tag, std::move(unit.value()));
+  OOMD_VERIF_DROPIN_TRACE("add", tag.c_str(), &drop_in, drop_in_queue_.size());
   return true;
 }
 
 void DropInServiceAdaptor::scheduleDropInRemove(const std::string& tag) {
   std::lock_guard<std::mutex> lock(queue_mutex_);
   drop_in_queue_.emplace_back(tag, std::nullopt);
+  OOMD_VERIF_DROPIN_TRACE("rem", tag.c_str(), nullptr, drop_in_queue_.size());
 }
 
 } // namespace Oomd
